@@ -459,6 +459,7 @@ theorem foldl_update_sumInt (s : Int) (l : List Val) (hint : l.all isInt = true)
     cases v with
     | null => simp [isInt] at hint
     | str t => simp [isInt] at hint
+    | float b => simp [isInt] at hint
     | int i =>
       simp only [List.foldl_cons, St.update, sumIntStep]
       rw [ih (s + i) hint.2, intSum_cons]
@@ -510,362 +511,6 @@ theorem sum_nonvacuous :
     colAgg .sum false [.int (2 ^ 63 - 1), .int (2 ^ 63 - 1)] = .float 0x43f0000000000000 ∧
     specAgg .sum false [.int (2 ^ 63 - 1), .int (2 ^ 63 - 1)] = .any := by
   refine ⟨by decide, by decide, by decide +kernel, by decide⟩
-
-/-! ### min / max -/
-
-theorem string_compare_lt (x y : String) : compare x y = .lt ↔ x < y := by
-  show String.compare x y = .lt ↔ _
-  unfold String.compare compareOfLessAndEq
-  by_cases h : x < y
-  · simp [h]
-  · by_cases he : x = y <;> simp [h, he]
-
-theorem string_compare_gt (x y : String) : compare x y = .gt ↔ y < x := by
-  show String.compare x y = .gt ↔ _
-  unfold String.compare compareOfLessAndEq
-  by_cases h : x < y
-  · simp [h]; exact String.lt_asymm h
-  · by_cases he : x = y
-    · subst he; simp [String.lt_irrefl]
-    · simp only [h, he, if_false, true_iff]
-      apply Classical.byContradiction; intro hn
-      exact he (String.le_antisymm (String.not_lt.1 hn) (String.not_lt.1 h))
-
-/-- the specification's order is a strict total order on the non-null values -/
-theorem specLt_irrefl (a : Val) : specLt a a = false := by
-  cases a <;> simp [specLt, String.lt_irrefl]
-
-theorem specLt_trans (a b c : Val) (h1 : specLt a b = true) (h2 : specLt b c = true) : specLt a c = true := by
-  cases a <;> cases b <;> cases c <;> simp_all [specLt]
-  · omega
-  · exact String.lt_trans h1 h2
-
-theorem specLt_trichotomy (a b : Val) (ha : a ≠ .null) (hb : b ≠ .null) :
-    specLt a b = true ∨ a = b ∨ specLt b a = true := by
-  cases a <;> cases b <;> simp_all [specLt]
-  · omega
-  · rename_i x y
-    by_cases h : x < y
-    · exact Or.inl h
-    · by_cases h2 : y < x
-      · exact Or.inr (Or.inr h2)
-      · exact Or.inr (Or.inl (String.le_antisymm (String.not_lt.1 h2) (String.not_lt.1 h)))
-
-/-- a value the coded comparison treats as what it is: an integer, or text that does not read as
-a number -/
-def isPlain : Val → Bool
-  | .int _ => true
-  | .str s => (parseF64 s.toList).isNone
-  | .null => false
-
-theorem isPlain_ne_null (v : Val) (h : isPlain v = true) : v ≠ .null := by
-  cases v <;> simp_all [isPlain]
-
-/-- on plain values the coded comparison decides the specification's order -/
-theorem cmpAgg_lt_iff (a b : Val) (ha : isPlain a = true) (hb : isPlain b = true) :
-    cmpAgg a b = some .lt ↔ specLt a b = true := by
-  cases a <;> cases b <;> simp_all [isPlain, cmpAgg, specLt, cmpStrStr, cmpStrInt, cmpIntStr, Int.compare_eq_lt,
-    string_compare_lt]
-
-theorem cmpAgg_gt_iff (a b : Val) (ha : isPlain a = true) (hb : isPlain b = true) :
-    cmpAgg a b = some .gt ↔ specLt b a = true := by
-  cases a <;> cases b <;> simp_all [isPlain, cmpAgg, specLt, cmpStrStr, cmpStrInt, cmpIntStr, Int.compare_eq_gt,
-    string_compare_gt]
-
-def IsMinOf (m : Val) (l : List Val) : Prop := m ∈ l ∧ ∀ x ∈ l, specLt x m = false
-def IsMaxOf (m : Val) (l : List Val) : Prop := m ∈ l ∧ ∀ x ∈ l, specLt m x = false
-
-theorem isMinOf_unique (m m' : Val) (l : List Val) (hl : ∀ x ∈ l, x ≠ .null) (h : IsMinOf m l) (h' : IsMinOf m' l) :
-    m = m' := by
-  rcases specLt_trichotomy m m' (hl _ h.1) (hl _ h'.1) with h1 | h1 | h1
-  · have := h'.2 m h.1; simp_all
-  · exact h1
-  · have := h.2 m' h'.1; simp_all
-
-theorem isMaxOf_unique (m m' : Val) (l : List Val) (hl : ∀ x ∈ l, x ≠ .null) (h : IsMaxOf m l) (h' : IsMaxOf m' l) :
-    m = m' := by
-  rcases specLt_trichotomy m m' (hl _ h.1) (hl _ h'.1) with h1 | h1 | h1
-  · have := h.2 m' h'.1; simp_all
-  · exact h1
-  · have := h'.2 m h.1; simp_all
-
-theorem not_lt_of_min_step (c v m : Val) (hc : c ≠ .null) (hm : m ≠ .null)
-    (hvc : specLt v c = false) (hcm : specLt c m = false) : specLt v m = false := by
-  cases hvm : specLt v m with
-  | false => rfl
-  | true =>
-    rcases specLt_trichotomy c m hc hm with h | h | h
-    · simp_all
-    · subst h; simp_all
-    · have := specLt_trans v m c hvm h; simp_all
-
-theorem foldl_minStep_plain (c : Val) (l : List Val) (hc : isPlain c = true) (hl : l.all isPlain = true) :
-    ∃ m, l.foldl minStep (some c) = some m ∧ IsMinOf m (c :: l) := by
-  induction l generalizing c with
-  | nil => exact ⟨c, rfl, by simp [IsMinOf, specLt_irrefl]⟩
-  | cons v vs ih =>
-    simp only [List.all_cons, Bool.and_eq_true] at hl
-    simp only [List.foldl_cons, minStep]
-    by_cases hlt : specLt v c = true
-    · have hcmp : cmpAgg v c = some .lt := (cmpAgg_lt_iff v c hl.1 hc).2 hlt
-      simp only [hcmp, if_true]
-      obtain ⟨m, hm, hmem, hmin⟩ := ih v hl.1 hl.2
-      refine ⟨m, hm, ?_, ?_⟩
-      · simp only [List.mem_cons] at hmem ⊢
-        rcases hmem with h | h
-        · exact Or.inr (Or.inl h)
-        · exact Or.inr (Or.inr h)
-      · intro x hx
-        simp only [List.mem_cons] at hx
-        rcases hx with rfl | rfl | hx
-        · -- c is not below m: otherwise v < c < m
-          cases hcm : specLt x m with
-          | false => rfl
-          | true =>
-            have := specLt_trans v x m hlt hcm
-            have := hmin v (by simp)
-            simp_all
-        · exact hmin x (by simp)
-        · exact hmin x (by simp [hx])
-    · have hcmp : ¬ cmpAgg v c = some .lt := fun h => hlt ((cmpAgg_lt_iff v c hl.1 hc).1 h)
-      simp only [hcmp, if_false]
-      obtain ⟨m, hm, hmem, hmin⟩ := ih c hc hl.2
-      have hmnn : m ≠ .null := by
-        simp only [List.mem_cons] at hmem
-        rcases hmem with rfl | h
-        · exact isPlain_ne_null _ hc
-        · exact isPlain_ne_null _ (List.all_eq_true.1 hl.2 _ h)
-      refine ⟨m, hm, ?_, ?_⟩
-      · simp only [List.mem_cons] at hmem ⊢
-        rcases hmem with h | h
-        · exact Or.inl h
-        · exact Or.inr (Or.inr h)
-      · intro x hx
-        simp only [List.mem_cons] at hx
-        rcases hx with rfl | rfl | hx
-        · exact hmin x (by simp)
-        · exact not_lt_of_min_step c x m (isPlain_ne_null _ hc) hmnn (by simpa using hlt) (hmin c (by simp))
-        · exact hmin x (by simp [hx])
-
-theorem specMin_isMin (v : Val) (l : List Val) (hl : ∀ x ∈ v :: l, x ≠ .null) :
-    ∃ m, specMin (v :: l) = some m ∧ IsMinOf m (v :: l) := by
-  induction l generalizing v with
-  | nil => exact ⟨v, rfl, by simp [IsMinOf, specLt_irrefl]⟩
-  | cons w ws ih =>
-    obtain ⟨m, hm, hmem, hmin⟩ := ih w (fun x hx => hl x (List.mem_cons_of_mem _ hx))
-    have hmnn : m ≠ .null := hl m (List.mem_cons_of_mem _ hmem)
-    rw [specMin, hm]
-    simp only
-    by_cases hlt : specLt m v = true
-    · refine ⟨m, by simp [hlt], List.mem_cons_of_mem _ hmem, ?_⟩
-      intro x hx
-      simp only [List.mem_cons] at hx
-      rcases hx with rfl | hx
-      · cases h : specLt x m with
-        | false => rfl
-        | true => have := specLt_trans x m x h hlt; simp [specLt_irrefl] at this
-      · exact hmin x (by simpa using hx)
-    · refine ⟨v, by simp [hlt], by simp, ?_⟩
-      intro x hx
-      simp only [List.mem_cons] at hx
-      rcases hx with rfl | hx
-      · exact specLt_irrefl _
-      · -- x is not below m, and m is not below v
-        have hxm := hmin x (by simpa using hx)
-        cases hxv : specLt x v with
-        | false => rfl
-        | true =>
-          rcases specLt_trichotomy m v hmnn (hl v (by simp)) with h | h | h
-          · simp_all
-          · subst h; simp_all
-          · have := specLt_trans x v m hxv h; simp_all
-
-/-- P (3): over integers and text that does not read as a number, the coded `min` is the minimum
-of the specification's value order — whatever the order of the input. -/
-theorem min_coded_partial (vs : List Val) (hp : (nonNull vs).all isPlain = true) :
-    colAgg .min false vs = ofVal ((specMin (nonNull vs)).getD .null) := by
-  unfold colAgg
-  rw [foldl_feed_nonNull _ _ (by simp)]
-  simp only [St.init]
-  have hfold : ∀ (m : Option Val) (l : List Val), l.foldl St.update (.min m) = .min (l.foldl minStep m) := by
-    intro m l
-    induction l generalizing m with
-    | nil => rfl
-    | cons v vs ih => simp [List.foldl_cons, St.update, ih]
-  rw [hfold]
-  cases hnn : nonNull vs with
-  | nil => simp [specMin, St.finalize]
-  | cons v l =>
-    rw [hnn] at hp
-    simp only [List.all_cons, Bool.and_eq_true] at hp
-    have hnull : ∀ x ∈ v :: l, x ≠ .null := by
-      intro x hx
-      simp only [List.mem_cons] at hx
-      rcases hx with rfl | hx
-      · exact isPlain_ne_null _ hp.1
-      · exact isPlain_ne_null _ (List.all_eq_true.1 hp.2 _ hx)
-    obtain ⟨ms, hms, hsm⟩ := specMin_isMin v l hnull
-    obtain ⟨mc, hmc, hcm⟩ := foldl_minStep_plain v l hp.1 hp.2
-    have : mc = ms := isMinOf_unique _ _ _ hnull hcm hsm
-    subst this
-    simp [List.foldl_cons, minStep, hmc, hms, St.finalize]
-
-theorem min_eq_spec_partial (vs : List Val) (hp : (nonNull vs).all isPlain = true) :
-    specAgg .min false vs = .ok (colAgg .min false vs) := by
-  simp [specAgg, min_coded_partial vs hp]
-
-theorem not_lt_of_max_step (c v m : Val) (hc : c ≠ .null) (hm : m ≠ .null)
-    (hcv : specLt c v = false) (hmc : specLt m c = false) : specLt m v = false := by
-  cases hmv : specLt m v with
-  | false => rfl
-  | true =>
-    rcases specLt_trichotomy m c hm hc with h | h | h
-    · simp_all
-    · subst h; simp_all
-    · have := specLt_trans c m v h hmv; simp_all
-
-theorem foldl_maxStep_plain (c : Val) (l : List Val) (hc : isPlain c = true) (hl : l.all isPlain = true) :
-    ∃ m, l.foldl maxStep (some c) = some m ∧ IsMaxOf m (c :: l) := by
-  induction l generalizing c with
-  | nil => exact ⟨c, rfl, by simp [IsMaxOf, specLt_irrefl]⟩
-  | cons v vs ih =>
-    simp only [List.all_cons, Bool.and_eq_true] at hl
-    simp only [List.foldl_cons, maxStep]
-    by_cases hgt : specLt c v = true
-    · have hcmp : cmpAgg v c = some .gt := (cmpAgg_gt_iff v c hl.1 hc).2 hgt
-      simp only [hcmp, if_true]
-      obtain ⟨m, hm, hmem, hmax⟩ := ih v hl.1 hl.2
-      refine ⟨m, hm, ?_, ?_⟩
-      · simp only [List.mem_cons] at hmem ⊢
-        rcases hmem with h | h
-        · exact Or.inr (Or.inl h)
-        · exact Or.inr (Or.inr h)
-      · intro x hx
-        simp only [List.mem_cons] at hx
-        rcases hx with rfl | rfl | hx
-        · cases hmx : specLt m x with
-          | false => rfl
-          | true =>
-            have := specLt_trans m x v hmx hgt
-            have := hmax v (by simp)
-            simp_all
-        · exact hmax x (by simp)
-        · exact hmax x (by simp [hx])
-    · have hcmp : ¬ cmpAgg v c = some .gt := fun h => hgt ((cmpAgg_gt_iff v c hl.1 hc).1 h)
-      simp only [hcmp, if_false]
-      obtain ⟨m, hm, hmem, hmax⟩ := ih c hc hl.2
-      have hmnn : m ≠ .null := by
-        simp only [List.mem_cons] at hmem
-        rcases hmem with rfl | h
-        · exact isPlain_ne_null _ hc
-        · exact isPlain_ne_null _ (List.all_eq_true.1 hl.2 _ h)
-      refine ⟨m, hm, ?_, ?_⟩
-      · simp only [List.mem_cons] at hmem ⊢
-        rcases hmem with h | h
-        · exact Or.inl h
-        · exact Or.inr (Or.inr h)
-      · intro x hx
-        simp only [List.mem_cons] at hx
-        rcases hx with rfl | rfl | hx
-        · exact hmax x (by simp)
-        · exact not_lt_of_max_step c x m (isPlain_ne_null _ hc) hmnn (by simpa using hgt) (hmax c (by simp))
-        · exact hmax x (by simp [hx])
-
-theorem specMax_isMax (v : Val) (l : List Val) (hl : ∀ x ∈ v :: l, x ≠ .null) :
-    ∃ m, specMax (v :: l) = some m ∧ IsMaxOf m (v :: l) := by
-  induction l generalizing v with
-  | nil => exact ⟨v, rfl, by simp [IsMaxOf, specLt_irrefl]⟩
-  | cons w ws ih =>
-    obtain ⟨m, hm, hmem, hmax⟩ := ih w (fun x hx => hl x (List.mem_cons_of_mem _ hx))
-    have hmnn : m ≠ .null := hl m (List.mem_cons_of_mem _ hmem)
-    rw [specMax, hm]
-    simp only
-    by_cases hlt : specLt v m = true
-    · refine ⟨m, by simp [hlt], List.mem_cons_of_mem _ hmem, ?_⟩
-      intro x hx
-      simp only [List.mem_cons] at hx
-      rcases hx with rfl | hx
-      · cases h : specLt m x with
-        | false => rfl
-        | true => have := specLt_trans x m x hlt h; simp [specLt_irrefl] at this
-      · exact hmax x (by simpa using hx)
-    · refine ⟨v, by simp [hlt], by simp, ?_⟩
-      intro x hx
-      simp only [List.mem_cons] at hx
-      rcases hx with rfl | hx
-      · exact specLt_irrefl _
-      · have hmx := hmax x (by simpa using hx)
-        cases hvx : specLt v x with
-        | false => rfl
-        | true =>
-          rcases specLt_trichotomy v m (hl v (by simp)) hmnn with h | h | h
-          · simp_all
-          · subst h; simp_all
-          · have := specLt_trans m v x h hvx; simp_all
-
-/-- P (3): … and the coded `max` is the maximum. -/
-theorem max_coded_partial (vs : List Val) (hp : (nonNull vs).all isPlain = true) :
-    colAgg .max false vs = ofVal ((specMax (nonNull vs)).getD .null) := by
-  unfold colAgg
-  rw [foldl_feed_nonNull _ _ (by simp)]
-  simp only [St.init]
-  have hfold : ∀ (m : Option Val) (l : List Val), l.foldl St.update (.max m) = .max (l.foldl maxStep m) := by
-    intro m l
-    induction l generalizing m with
-    | nil => rfl
-    | cons v vs ih => simp [List.foldl_cons, St.update, ih]
-  rw [hfold]
-  cases hnn : nonNull vs with
-  | nil => simp [specMax, St.finalize]
-  | cons v l =>
-    rw [hnn] at hp
-    simp only [List.all_cons, Bool.and_eq_true] at hp
-    have hnull : ∀ x ∈ v :: l, x ≠ .null := by
-      intro x hx
-      simp only [List.mem_cons] at hx
-      rcases hx with rfl | hx
-      · exact isPlain_ne_null _ hp.1
-      · exact isPlain_ne_null _ (List.all_eq_true.1 hp.2 _ hx)
-    obtain ⟨ms, hms, hsm⟩ := specMax_isMax v l hnull
-    obtain ⟨mc, hmc, hcm⟩ := foldl_maxStep_plain v l hp.1 hp.2
-    have : mc = ms := isMaxOf_unique _ _ _ hnull hcm hsm
-    subst this
-    simp [List.foldl_cons, maxStep, hmc, hms, St.finalize]
-
-theorem max_eq_spec_partial (vs : List Val) (hp : (nonNull vs).all isPlain = true) :
-    specAgg .max false vs = .ok (colAgg .max false vs) := by
-  simp [specAgg, max_coded_partial vs hp]
-
-/-- integers are plain: the integer-only statements are instances -/
-theorem isInt_isPlain (l : List Val) (h : l.all isInt = true) : l.all isPlain = true := by
-  rw [List.all_eq_true] at h ⊢
-  intro x hx
-  have := h x hx
-  cases x <;> simp_all [isInt, isPlain]
-
-/-- W: the full statements are false: text that reads as a number is compared as a number
-("10" vs "9"; the engine stores RDF numeric literals as text). -/
-theorem min_not_spec : ¬ ∀ vs : List Val, specAgg .min false vs = .ok (colAgg .min false vs) := by
-  intro h
-  exact absurd (h [.str "10", .str "9"]) (by decide)
-
-theorem max_not_spec : ¬ ∀ vs : List Val, specAgg .max false vs = .ok (colAgg .max false vs) := by
-  intro h
-  exact absurd (h [.str "10", .str "9"]) (by decide)
-
-theorem min_numeric_strings_witness :
-    colAgg .min false [.str "10", .str "9"] = .str "9" ∧ specAgg .min false [.str "10", .str "9"] = .ok (.str "10") := by
-  refine ⟨by decide, by decide⟩
-
-/-- N: a column with integers, text and a null: the hypothesis holds, both orders of the input
-give the integer as minimum and the text as maximum. -/
-theorem min_max_nonvacuous :
-    (nonNull [.str "a", .null, .int 1, .int (-2)]).all isPlain = true ∧
-    colAgg .min false [.str "a", .null, .int 1, .int (-2)] = .int (-2) ∧
-    colAgg .min false [.int (-2), .int 1, .null, .str "a"] = .int (-2) ∧
-    colAgg .max false [.str "a", .null, .int 1, .int (-2)] = .str "a" ∧
-    colAgg .max false [.int (-2), .int 1, .null, .str "a"] = .str "a" := by
-  refine ⟨by decide, by decide, by decide, by decide, by decide⟩
 
 /-! ### avg: the float arithmetic
 
@@ -1173,6 +818,7 @@ theorem foldl_update_avg (s c : Int) (l : List Val) (hint : l.all isInt = true) 
     cases v with
     | null => simp [isInt] at hint
     | str t => simp [isInt] at hint
+    | float b => simp [isInt] at hint
     | int i =>
       simp only [List.foldl_cons, St.update, avgStep]
       rw [ih (s + i) (c + 1) hint.2, intSum_cons]
@@ -1196,13 +842,12 @@ theorem avg_eq_spec_partial (vs : List Val) (h : avgOK vs = true) :
   simp only [St.init]
   rw [foldl_update_avg 0 0 (nonNull vs) h.1.1]
   simp only [Int.zero_add]
-  have hspec : specAgg .avg false vs =
-      (if !(nonNull vs).all isInt then .err "type"
-       else if (nonNull vs).isEmpty then .ok .null
-       else .ok (.float (meanF64 (intSum (nonNull vs)) (nonNull vs).length))) := rfl
   have hall : (nonNull vs).all isInt = true := h.1.1
+  have hspec : specAgg .avg false vs =
+      (if (nonNull vs).isEmpty then .ok .null
+       else .ok (.float (meanF64 (intSum (nonNull vs)) (nonNull vs).length))) := by
+    simp only [specAgg, Bool.false_eq_true, if_false, hall, if_true]
   rw [hspec]
-  simp only [hall, Bool.not_true, Bool.false_eq_true, if_false]
   cases hnn : nonNull vs with
   | nil => simp [St.finalize, avgOut]
   | cons v l =>
@@ -1355,736 +1000,5 @@ theorem avg_small_nonvacuous : (intSum (nonNull [.int 7, .null, .int (-4), .int 
     specAgg .avg false [.int 7, .null, .int (-4), .int 2] = .ok (.float 0x3ffaaaaaaaaaaaab) := by
   refine ⟨by decide, by decide +kernel⟩
 
-/-! ## 4. the query level -/
-
-theorem keyOf_range_append (ks rest : List Val) :
-    keyOf (List.range ks.length) (ks ++ rest) = ks := by
-  unfold keyOf
-  apply List.ext_getElem
-  · simp
-  · intro i h1 h2
-    simp only [List.length_map, List.length_range] at h1
-    simp [List.getElem?_append_left h1, List.getElem?_eq_getElem h1]
-
-theorem keyVals_length (q : AggQ) (b : Binding) : (keyVals q b).length = (keyItems q.items).length := by
-  simp [keyVals]
-
-theorem keyOf_opRow (q : AggQ) (b : Binding) :
-    keyOf (List.range (keyItems q.items).length) (opRow q b) = keyVals q b := by
-  unfold opRow
-  rw [← keyVals_length q b]
-  exact keyOf_range_append _ _
-
-/-- the bindings that pass WHERE and carry the key `k` -/
-def groupOf (q : AggQ) (bs : List Binding) (k : List Val) : List Binding :=
-  (bs.filter (passes q.preds)).filter (fun b => keyVals q b == k)
-
-/-- F (2) at the query level: for a query with group keys, the rows the aggregate operator returns
-are: for every distinct key tuple of the bindings that pass the predicate — in first-seen order —
-the key followed by the simple aggregate over the bindings that carry this key. -/
-theorem aggRows_grouped (q : AggQ) (bs : List Binding) (hk : (keyItems q.items).length ≠ 0) :
-    aggRows q bs =
-      (dedupKeys ((bs.filter (passes q.preds)).map (keyVals q))).map (fun k =>
-        k.map ofVal ++ simpleAgg (physAggs q) [(groupOf q bs k).map (opRow q)]) := by
-  unfold aggRows groupOf
-  simp only [hk, if_false]
-  rw [hashAgg_eq_perGroup]
-  have hf : (keyOf (List.range (keyItems q.items).length) ∘ opRow q) = keyVals q := funext (keyOf_opRow q)
-  simp only [List.flatten_cons, List.flatten_nil, List.append_nil, List.map_map, hf]
-  apply List.map_congr_left
-  intro k _
-  congr 3
-  rw [List.filter_map]
-  congr 1
-  apply List.filter_congr
-  intro b _
-  simp [Function.comp, keyOf_opRow]
-
-/-- … and without keys it is the simple aggregate over all of them: one row, also for no binding. -/
-theorem aggRows_global (q : AggQ) (bs : List Binding) (hk : (keyItems q.items).length = 0) :
-    aggRows q bs = [simpleAgg (physAggs q) [(bs.filter (passes q.preds)).map (opRow q)]] := by
-  unfold aggRows
-  simp [hk]
-
-/-! ### several aggregates at once = each aggregate on its own column -/
-
-theorem foldl_feedAll_nil (sts : List St) (rows : List Row) (h : rows ≠ []) : rows.foldl (feedAll []) sts = [] := by
-  induction rows generalizing sts with
-  | nil => exact absurd rfl h
-  | cons r rs ih =>
-    cases rs with
-    | nil => rfl
-    | cons r' rs' => rw [List.foldl_cons]; exact ih _ (by simp)
-
-theorem foldl_feedAll_cons (a : AggExpr) (as : List AggExpr) (st : St) (sts : List St) (rows : List Row) :
-    rows.foldl (feedAll (a :: as)) (st :: sts) = rows.foldl (feed a) st :: rows.foldl (feedAll as) sts := by
-  induction rows generalizing st sts with
-  | nil => rfl
-  | cons r rs ih => simp only [List.foldl_cons, feedAll, ih]
-
-theorem foldl_feedAll_init (aggs : List AggExpr) (rows : List Row) :
-    rows.foldl (feedAll aggs) (initAll aggs) = aggs.map (fun a => rows.foldl (feed a) (St.init a.fn a.distinct)) := by
-  induction aggs with
-  | nil =>
-    cases rows with
-    | nil => rfl
-    | cons r rs => exact foldl_feedAll_nil _ _ (by simp)
-  | cons a as ih =>
-    have : initAll (a :: as) = St.init a.fn a.distinct :: initAll as := rfl
-    rw [this, foldl_feedAll_cons, ih]
-    rfl
-
-/-- an aggregate reads only its own column -/
-theorem foldl_feed_column (fn : AggFn) (c : Nat) (d : Bool) (st : St) (rows : List Row) :
-    rows.foldl (feed ⟨fn, some c, d⟩) st =
-      ((rows.map (fun r => r.getD c .null)).map (fun v => [v])).foldl (feed ⟨fn, some 0, d⟩) st := by
-  induction rows generalizing st with
-  | nil => rfl
-  | cons r rs ih =>
-    simp only [List.map_cons, List.foldl_cons]
-    have hstep : feed ⟨fn, some c, d⟩ st r = feed ⟨fn, some 0, d⟩ st [r.getD c .null] := by
-      unfold feed
-      simp only [Option.bind, List.getD_eq_getElem?_getD, List.getElem?_cons_zero]
-      cases hrc : r[c]? with
-      | none => simp
-      | some v => simp
-    rw [hstep, ih]
-
-/-- F: `SimpleAggregateOperator` with several aggregates returns, for each of them, the aggregate
-of its own column. -/
-theorem simpleAgg_columns (aggs : List AggExpr) (rows : List Row) :
-    simpleAgg aggs [rows] = aggs.map (fun a => (rows.foldl (feed a) (St.init a.fn a.distinct)).finalize) := by
-  unfold simpleAgg
-  rw [runChunks_flatten]
-  simp [foldl_feedAll_init, List.map_map, Function.comp]
-
-/-- the coded value of one aggregate item over a group of bindings -/
-def codedCell (grp : List Binding) : Item → AVal
-  | .agg fn d s => colAgg (specFn fn) d (grp.map (fun b => srcVal b s))
-  | .key _ _ => .null
-
-/-- the specified value of one aggregate item over a group of bindings -/
-def specCellOf (grp : List Binding) : Item → SRes
-  | .agg fn d s => specAgg (specFn fn) d (grp.map (fun b => srcVal b s))
-  | .key _ _ => .ok .null
-
-theorem opRow_agg_column (q : AggQ) (b : Binding) (j : Nat) (it : Item) (h : (aggItems q.items)[j]? = some it) :
-    (opRow q b).getD ((keyItems q.items).length + j) .null = srcVal b (itemSrc it) := by
-  unfold opRow
-  rw [List.getD_eq_getElem?_getD, List.getElem?_append_right (by rw [keyVals_length]; omega), keyVals_length]
-  simp [aggVals, h]
-
-/-- F: the aggregate part of the operator's row for a group = the coded cell of every aggregate
-item, in the order of the items. -/
-theorem simpleAgg_opRows (q : AggQ) (grp : List Binding) :
-    simpleAgg (physAggs q) [grp.map (opRow q)] = (aggItems q.items).map (codedCell grp) := by
-  rw [simpleAgg_columns]
-  unfold physAggs
-  rw [List.map_map]
-  have hfst := List.zipIdx_map_fst 0 (aggItems q.items)
-  conv => rhs; rw [← hfst, List.map_map]
-  apply List.map_congr_left
-  intro ⟨it, j⟩ hmem
-  have hget : (aggItems q.items)[j]? = some it := List.mem_zipIdx_iff_getElem?.1 hmem
-  have hnk : it.isKey = false := by
-    have := List.mem_of_getElem? hget
-    simp only [aggItems, List.mem_filter, Bool.not_eq_true'] at this
-    exact this.2
-  cases it with
-  | key v k => simp [Item.isKey] at hnk
-  | agg fn d s =>
-    simp only [Function.comp, physAgg, codedCell, colAgg]
-    rw [foldl_feed_column]
-    congr 2
-    simp only [List.map_map]
-    apply List.map_congr_left
-    intro b _
-    simpa [itemSrc] using opRow_agg_column q b j _ hget
-
-/-! ### the specification's row for a key-first RETURN list -/
-
-theorem specCells_aggs (grp : List Binding) (ks : List Val) (A : List Item) (hA : ∀ x ∈ A, x.isKey = false) :
-    specCells grp ks A = A.map (specCellOf grp) := by
-  induction A with
-  | nil => rfl
-  | cons it rest ih =>
-    cases it with
-    | key v k => have := hA (.key v k) (by simp); simp [Item.isKey] at this
-    | agg fn d s =>
-      simp only [specCells, List.map_cons, specCellOf]
-      rw [ih (fun x hx => hA x (List.mem_cons_of_mem _ hx))]
-
-theorem specCells_keys (grp : List Binding) (K A : List Item) (k : List Val)
-    (hK : ∀ x ∈ K, x.isKey = true) (hA : ∀ x ∈ A, x.isKey = false) (hlen : k.length = K.length) :
-    specCells grp k (K ++ A) = k.map (fun v => .ok (ofVal v)) ++ A.map (specCellOf grp) := by
-  induction K generalizing k with
-  | nil =>
-    have : k = [] := List.eq_nil_of_length_eq_zero (by simpa using hlen)
-    subst this
-    simpa using specCells_aggs grp [] A hA
-  | cons it rest ih =>
-    cases k with
-    | nil => simp at hlen
-    | cons v vs =>
-      cases it with
-      | agg fn d s => have := hK (.agg fn d s) (by simp); simp [Item.isKey] at this
-      | key a b =>
-        simp only [List.cons_append, specCells, List.headD_cons, List.tail_cons, List.map_cons]
-        rw [ih vs (fun x hx => hK x (List.mem_cons_of_mem _ hx)) (by simpa using hlen)]
-
-theorem keyItems_isKey (items : List Item) : ∀ x ∈ keyItems items, x.isKey = true := by
-  intro x hx
-  simp only [keyItems, List.mem_filter] at hx
-  exact hx.2
-
-theorem aggItems_notKey (items : List Item) : ∀ x ∈ aggItems items, x.isKey = false := by
-  intro x hx
-  simp only [aggItems, List.mem_filter, Bool.not_eq_true'] at hx
-  exact hx.2
-
-/-- RETURN lists its keys first (the layout the operator produces anyway) -/
-def KeysFirst (q : AggQ) : Prop := q.items = keyItems q.items ++ aggItems q.items
-
-instance (q : AggQ) : Decidable (KeysFirst q) := by unfold KeysFirst; infer_instance
-
-theorem outPos_keysFirst (K A : List Item) (hK : ∀ x ∈ K, x.isKey = true) (hA : ∀ x ∈ A, x.isKey = false)
-    (i : Nat) (hi : i < (K ++ A).length) : outPos (K ++ A) i = i := by
-  unfold outPos
-  have hkf : keyItems (K ++ A) = K := by
-    simp only [keyItems, List.filter_append]
-    rw [List.filter_eq_self.2 hK, List.filter_eq_nil_iff.2 (fun x hx => by simp [hA x hx])]
-    simp
-  by_cases hlt : i < K.length
-  · have hg : (K ++ A)[i]? = some K[i] := by rw [List.getElem?_append_left hlt]; simp
-    have hik : K[i].isKey = true := hK _ (List.getElem_mem _)
-    rw [hg]
-    simp only [hik, if_true]
-    rw [List.take_append_of_le_length (by omega)]
-    rw [List.filter_eq_self.2 (fun x hx => hK x (List.mem_of_mem_take hx))]
-    simp; omega
-  · have hlen : i - K.length < A.length := by simp at hi; omega
-    have hg : (K ++ A)[i]? = some A[i - K.length] := by
-      rw [List.getElem?_append_right (by omega)]; simp [hlen]
-    have hik : A[i - K.length].isKey = false := hA _ (List.getElem_mem _)
-    rw [hg]
-    simp only [hik, Bool.false_eq_true, if_false, hkf]
-    rw [List.take_append, List.filter_append]
-    have h1 : (K.take i).filter (fun x => !x.isKey) = [] :=
-      List.filter_eq_nil_iff.2 (fun x hx => by simp [hK x (List.mem_of_mem_take hx)])
-    have h2 : (A.take (i - K.length)).filter (fun x => !x.isKey) = A.take (i - K.length) :=
-      List.filter_eq_self.2 (fun x hx => by simp [hA x (List.mem_of_mem_take hx)])
-    rw [h1, h2]
-    simp; omega
-
-/-! ### as coded = as specified, on the same bindings -/
-
-/-- the key tuples of the result: one empty tuple when RETURN has no key -/
-def resultKeys (q : AggQ) (bs : List Binding) : List (List Val) :=
-  if (keyItems q.items).isEmpty then [[]] else dedupKeys ((bs.filter (passes q.preds)).map (keyVals q))
-
-theorem groupOf_noKeys (q : AggQ) (bs : List Binding) (hk : (keyItems q.items).length = 0) :
-    groupOf q bs [] = bs.filter (passes q.preds) := by
-  unfold groupOf
-  apply List.filter_eq_self.2
-  intro b _
-  have : keyVals q b = [] := List.eq_nil_of_length_eq_zero (by rw [keyVals_length]; exact hk)
-  simp [this]
-
-/-- F: the rows of the aggregate operator, cell by cell: for every result key, the key values
-followed by the coded cell of every aggregate item. -/
-theorem aggRows_cells (q : AggQ) (bs : List Binding) :
-    aggRows q bs = (resultKeys q bs).map (fun k =>
-      k.map ofVal ++ (aggItems q.items).map (codedCell (groupOf q bs k))) := by
-  unfold resultKeys
-  by_cases hk : (keyItems q.items).length = 0
-  · have he : (keyItems q.items).isEmpty = true := by simpa [List.isEmpty_iff] using List.eq_nil_of_length_eq_zero hk
-    rw [aggRows_global q bs hk, he]
-    simp [simpleAgg_opRows, groupOf_noKeys q bs hk]
-  · have he : (keyItems q.items).isEmpty = false := by
-      cases h : keyItems q.items with
-      | nil => simp [h] at hk
-      | cons _ _ => rfl
-    rw [aggRows_grouped q bs hk, he]
-    simp [simpleAgg_opRows]
-
-theorem resultKeys_length (q : AggQ) (bs : List Binding) (k : List Val) (hk : k ∈ resultKeys q bs) :
-    k.length = (keyItems q.items).length := by
-  unfold resultKeys at hk
-  by_cases he : (keyItems q.items).isEmpty = true
-  · simp only [he, if_true, List.mem_singleton] at hk
-    subst hk
-    simp [List.isEmpty_iff.1 he]
-  · simp only [he, Bool.false_eq_true, if_false] at hk
-    have := (mem_dedupFirst _ _).1 hk
-    obtain ⟨b, _, rfl⟩ := List.mem_map.1 this
-    exact keyVals_length q b
-
-theorem map_sresVal_ok (r : List AVal) : (r.map SRes.ok).map sresVal = r := by
-  induction r with
-  | nil => rfl
-  | cons v vs ih => simp [sresVal, ih]
-
-theorem allOk_noErr (rows : List (List AVal)) :
-    ((rows.map (fun r => r.map SRes.ok)).flatten.filterMap sresErr).head? = none ∧
-    (rows.map (fun r => r.map SRes.ok)).flatten.any sresAny = false ∧
-    (rows.map (fun r => r.map SRes.ok)).map (fun r => r.map sresVal) = rows := by
-  refine ⟨?_, ?_, ?_⟩
-  · have : (rows.map (fun r => r.map SRes.ok)).flatten.filterMap sresErr = [] := by
-      rw [List.filterMap_eq_nil_iff]
-      intro x hx
-      simp only [List.mem_flatten, List.mem_map] at hx
-      obtain ⟨l, ⟨r, _, rfl⟩, hx⟩ := hx
-      obtain ⟨v, _, rfl⟩ := List.mem_map.1 hx
-      rfl
-    rw [this]; rfl
-  · rw [List.any_eq_false]
-    intro x hx
-    simp only [List.mem_flatten, List.mem_map] at hx
-    obtain ⟨l, ⟨r, _, rfl⟩, hx⟩ := hx
-    obtain ⟨v, _, rfl⟩ := List.mem_map.1 hx
-    simp [sresAny]
-  · rw [List.map_map]
-    conv => rhs; rw [← List.map_id rows]
-    apply List.map_congr_left
-    intro r _
-    exact map_sresVal_ok r
-
-/-- F (2)+(3), end to end on any list of bindings: for a query whose RETURN lists the keys first, if on every group every aggregate cell as coded is the one specified, the
-whole result as coded — grouping, row layout, ORDER BY, SKIP, LIMIT — is the specified result. -/
-theorem finishAgg_eq_finishSpec (q : AggQ) (bs : List Binding)
-    (hkf : KeysFirst q)
-    (hord : ∀ p ∈ q.orderBy, p.1 < q.items.length)
-    (hcells : ∀ k, ∀ it ∈ aggItems q.items,
-      specCellOf (groupOf q bs k) it = .ok (codedCell (groupOf q bs k) it)) :
-    finishAgg q bs = finishSpec q bs := by
-  have hcellsEq : (resultKeys q bs).map (specRow q (bs.filter (passes q.preds))) =
-      (aggRows q bs).map (fun r => r.map SRes.ok) := by
-    rw [aggRows_cells, List.map_map]
-    apply List.map_congr_left
-    intro k hk
-    have hlen := resultKeys_length q bs k hk
-    simp only [Function.comp, specRow]
-    have h1 : specCells (groupOf q bs k) k q.items =
-        specCells (groupOf q bs k) k (keyItems q.items ++ aggItems q.items) := congrArg _ hkf
-    show specCells (groupOf q bs k) k q.items = _
-    rw [h1, specCells_keys _ _ _ _ (keyItems_isKey _) (aggItems_notKey _) hlen, List.map_append, List.map_map, List.map_map]
-    congr 1
-    apply List.map_congr_left
-    intro it hit
-    exact hcells k it hit
-  have hsort : q.orderBy.map (fun (p : Nat × Bool) => (outPos q.items p.1, p.2)) = q.orderBy := by
-    have hop : ∀ i, i < q.items.length → outPos q.items i = i := by
-      intro i hi
-      have h2 : outPos q.items i = outPos (keyItems q.items ++ aggItems q.items) i := congrArg (fun l => outPos l i) hkf
-      rw [h2]
-      apply outPos_keysFirst _ _ (keyItems_isKey _) (aggItems_notKey _)
-      have h3 : q.items.length = (keyItems q.items ++ aggItems q.items).length := congrArg List.length hkf
-      omega
-    conv => rhs; rw [← List.map_id q.orderBy]
-    apply List.map_congr_left
-    intro p hp
-    simp [hop p.1 (hord p hp)]
-  obtain ⟨e1, e2, e3⟩ := allOk_noErr (aggRows q bs)
-  unfold finishAgg finishSpec
-  have hkeys : (if (keyItems q.items).isEmpty = true then [[]] else dedupKeys ((bs.filter (passes q.preds)).map (keyVals q))) =
-      resultKeys q bs := rfl
-  simp only [hkeys, hcellsEq, e1, e2, e3, Bool.false_eq_true, if_false]
-  have hsort' : q.orderBy.map (fun x => match x with | (i, asc) => (outPos q.items i, asc)) = q.orderBy := hsort
-  rw [hsort']
-
-/-- the aggregates whose coded value is the specified one on every input -/
-def simpleItem : Item → Bool
-  | .key _ _ => true
-  | .agg .countStar false _ => true
-  | .agg .count _ _ => true
-  | .agg .collect _ _ => true
-  | _ => false
-
-/-- F, the corollary without residual hypothesis: for every query whose RETURN lists group keys and
-then `count(*)`, `count(x)`, `count(DISTINCT x)`, `collect(x)`, `collect(DISTINCT x)` aggregates (over
-properties or variables), on every list of bindings the result as coded is the result specified. -/
-theorem finishAgg_eq_finishSpec_counts (q : AggQ) (bs : List Binding)
-    (hs : q.items.all simpleItem = true) (hkf : KeysFirst q) (hord : ∀ p ∈ q.orderBy, p.1 < q.items.length) :
-    finishAgg q bs = finishSpec q bs := by
-  apply finishAgg_eq_finishSpec q bs hkf hord
-  intro k it hit
-  have hmem : it ∈ q.items := by
-    simp only [aggItems, List.mem_filter] at hit
-    exact hit.1
-  have hsi := List.all_eq_true.1 hs it hmem
-  cases it with
-  | key v kk => rfl
-  | agg fn d s =>
-    cases fn <;> cases d <;> simp [simpleItem] at hsi
-    · exact count_star_eq_spec _
-    · exact count_eq_spec _
-    · exact count_distinct_eq_spec _
-    · exact collect_eq_spec _
-    · exact collect_distinct_eq_spec _
-
-/-! ### from the pipeline's bindings to the enumeration's: counts -/
-
-section DedupPerm
-variable {α : Type} [BEq α] [LawfulBEq α]
-
-theorem nodup_dedupFirst (l : List α) : (dedupFirst l).Nodup := by
-  induction l with
-  | nil => simp [dedupFirst]
-  | cons v vs ih =>
-    simp only [dedupFirst, List.nodup_cons, List.mem_filter, bne_self_eq_false, Bool.false_eq_true, and_false,
-      not_false_eq_true, true_and]
-    exact ih.sublist List.filter_sublist
-
-/-- removing duplicates commutes with permuting, up to a permutation -/
-theorem dedupFirst_perm (l1 l2 : List α) (h : l1.Perm l2) : (dedupFirst l1).Perm (dedupFirst l2) := by
-  rw [List.perm_ext_iff_of_nodup (nodup_dedupFirst l1) (nodup_dedupFirst l2)]
-  intro a
-  rw [mem_dedupFirst, mem_dedupFirst]
-  exact h.mem_iff
-
-end DedupPerm
-
-theorem colAgg_countStar_perm (l1 l2 : List Val) (h : l1.Perm l2) :
-    colAgg .count false l1 = colAgg .count false l2 := by
-  rw [count_star_coded, count_star_coded, h.length_eq]
-
-theorem colAgg_count_perm (d : Bool) (l1 l2 : List Val) (h : l1.Perm l2) :
-    colAgg .countNonNull d l1 = colAgg .countNonNull d l2 := by
-  have hf : (nonNull l1).Perm (nonNull l2) := h.filter _
-  cases d
-  · rw [count_coded, count_coded, hf.length_eq]
-  · rw [count_distinct_coded, count_distinct_coded]
-    have := (dedupFirst_perm _ _ hf).length_eq
-    simp only [dedupVals]
-    rw [this]
-
-/-- keys and `count(*)` / `count(x)` / `count(DISTINCT x)` only -/
-def countItem : Item → Bool
-  | .key _ _ => true
-  | .agg .countStar false _ => true
-  | .agg .count _ _ => true
-  | _ => false
-
-theorem countItem_simple (items : List Item) (h : items.all countItem = true) : items.all simpleItem = true := by
-  rw [List.all_eq_true] at h ⊢
-  intro it hit
-  have := h it hit
-  cases it with
-  | key v k => rfl
-  | agg fn d s => cases fn <;> cases d <;> simp [countItem] at this <;> rfl
-
-theorem aggRows_perm_counts (q : AggQ) (b1 b2 : List Binding) (h : b1.Perm b2) (hc : q.items.all countItem = true) :
-    (aggRows q b1).Perm (aggRows q b2) := by
-  rw [aggRows_cells, aggRows_cells]
-  have hkept : (b1.filter (passes q.preds)).Perm (b2.filter (passes q.preds)) := h.filter _
-  have hkeys : (resultKeys q b1).Perm (resultKeys q b2) := by
-    unfold resultKeys
-    split
-    · exact List.Perm.refl _
-    · exact dedupFirst_perm _ _ (hkept.map _)
-  have hF : ∀ k, (aggItems q.items).map (codedCell (groupOf q b1 k)) = (aggItems q.items).map (codedCell (groupOf q b2 k)) := by
-    intro k
-    apply List.map_congr_left
-    intro it hit
-    have hmem : it ∈ q.items := by
-      simp only [aggItems, List.mem_filter] at hit
-      exact hit.1
-    have hci := List.all_eq_true.1 hc it hmem
-    have hg : (groupOf q b1 k).Perm (groupOf q b2 k) := hkept.filter _
-    cases it with
-    | key v kk => rfl
-    | agg fn d s =>
-      cases fn <;> cases d <;> simp [countItem] at hci
-      · exact colAgg_countStar_perm _ _ (hg.map _)
-      · exact colAgg_count_perm false _ _ (hg.map _)
-      · exact colAgg_count_perm true _ _ (hg.map _)
-  have : (resultKeys q b1).map (fun k => k.map ofVal ++ (aggItems q.items).map (codedCell (groupOf q b1 k))) =
-      (resultKeys q b1).map (fun k => k.map ofVal ++ (aggItems q.items).map (codedCell (groupOf q b2 k))) := by
-    apply List.map_congr_left
-    intro k _
-    rw [hF k]
-  rw [this]
-  exact hkeys.map _
-
-/-- F, from query to answer: for every graph with unique node ids and every chain pattern, a
-`RETURN keys…, count(*) | count(x) | count(DISTINCT x)…` query (keys first, no ORDER BY / SKIP / LIMIT) executed by the scan /
-expand / aggregate pipeline returns exactly the rows — each the same number of times — that
-grouping and counting the enumeration of all bindings yields. -/
-theorem execAgg_perm_evalAgg_counts (g : Graph) (hu : UniqueIds g) (q : AggQ)
-    (hc : q.items.all countItem = true) (hkf : KeysFirst q)
-    (ho : q.orderBy = []) (hs : q.skip = none) (hl : q.limit = none) :
-    ∃ r s, Pipe.execAgg g q = .rows r ∧ Spec.evalAgg g q = .rows s ∧ r.Perm s := by
-  have hperm := c08_pipeline_bindings_perm_enumeration g hu q.core
-  have hspec : Spec.evalAgg g q = finishAgg q (Spec.bindings g q.core) :=
-    (finishAgg_eq_finishSpec_counts q _ (countItem_simple _ hc) hkf (by simp [ho])).symm
-  refine ⟨aggRows q (Pipe.bindings g q.core), aggRows q (Spec.bindings g q.core), ?_, ?_, aggRows_perm_counts q _ _ hperm hc⟩
-  · simp [Pipe.execAgg, finishAgg, ho, hs, hl, window]
-  · rw [hspec]
-    simp [finishAgg, ho, hs, hl, window]
-
-/-- N: two groups over a three-node graph, `RETURN a.k0, count(a.k1), collect(a.k1)` — hypotheses
-hold, both sides return the same two rows; and a sum query through GQL text = through the enumeration. -/
-theorem agg_query_nonvacuous :
-    let g : Graph := ⟨[⟨0, [], [(0, .int 1), (1, .int 5)]⟩, ⟨1, [], [(0, .int 1)]⟩, ⟨2, [], [(0, .str "x"), (1, .int 2)]⟩], []⟩
-    let q : AggQ := { start := ⟨none⟩, hops := [], preds := [], items := [.key 0 0, .agg .count false (.prop 0 1), .agg .collect false (.prop 0 1)],
-                      orderBy := [(1, false)], skip := none, limit := none }
-    let q2 : AggQ := { q with items := [.key 0 0, .agg .sum false (.prop 0 1)], orderBy := [] }
-    q.items.all simpleItem = true ∧ KeysFirst q ∧
-    Pipe.execAgg g q = .rows [[.int 1, .int 1, .list [.int 5]], [.str "x", .int 1, .list [.int 2]]] ∧
-    Spec.evalAgg g q = Pipe.execAgg g q ∧
-    Pipe.execAgg g q2 = .rows [[.int 1, .int 5], [.str "x", .int 2]] ∧ Spec.evalAgg g q2 = Pipe.execAgg g q2 := by
-  refine ⟨by decide, by decide, by decide, by decide, by decide, by decide⟩
-
-/-! ## 5. the Gremlin and GraphQL plans against the enumeration -/
-
-/-- F (after the repair of `values()`): a Gremlin traversal `g.V()…out()/in()/both()…has(…)….values(k)`
-without dedup / order / range / reducing step returns exactly the existing values of the
-enumeration, the same number of times. -/
-theorem gremlin_values_perm (g : Graph) (hu : UniqueIds g) (q : GremQ) (k : Nat)
-    (hp : q.proj = some k) (hd : q.dedup = .none) (ho : q.order = none) (hs : q.skip = none) (hl : q.limit = none)
-    (ha : q.agg = none) :
-    ∃ r s, Pipe.execGremlin g q = .rows r ∧ Spec.evalGremlin g q = .rows s ∧ r.Perm s := by
-  have hperm := c08_pipeline_bindings_perm_enumeration g hu q.core
-  refine ⟨(nonNull (((Pipe.bindings g q.core).filter (passes q.preds)).map (fun b => lastProp b k))).map (fun v => [ofVal v]),
-    (nonNull (((Spec.bindings g q.core).filter (passes q.preds)).map (fun b => lastProp b k))).map (fun v => [ofVal v]), ?_, ?_, ?_⟩
-  · simp [Pipe.execGremlin, gremSteps, hp, hd, ho, hs, hl, ha, window]
-  · simp [Spec.evalGremlin, gremSteps, hp, hd, ho, hs, hl, ha, window]
-  · have hp2 : (((Pipe.bindings g q.core).filter (passes q.preds)).map (fun b => lastProp b k)).Perm
-        (((Spec.bindings g q.core).filter (passes q.preds)).map (fun b => lastProp b k)) := (hperm.filter _).map _
-    exact (hp2.filter _).map _
-
-/-- F: `count()` after the pattern, or after `values(k)`, counts the bindings (the existing values)
-of the enumeration. -/
-theorem gremlin_count_eq (g : Graph) (hu : UniqueIds g) (q : GremQ)
-    (hd : q.dedup = .none) (ho : q.order = none) (hs : q.skip = none) (hl : q.limit = none)
-    (ha : q.agg = some .count) :
-    Pipe.execGremlin g q = Spec.evalGremlin g q := by
-  have hperm := c08_pipeline_bindings_perm_enumeration g hu q.core
-  have hkept := hperm.filter (passes q.preds)
-  have hlen : (gremSteps q (Pipe.bindings g q.core)).length = (gremSteps q (Spec.bindings g q.core)).length := by
-    unfold gremSteps
-    simp only [hd, ho, hs, hl, window]
-    cases q.proj with
-    | none => simpa using hkept.length_eq
-    | some k => exact ((hkept.map (fun b => lastProp b k)).filter (· != Val.null)).length_eq
-  unfold Pipe.execGremlin Spec.evalGremlin
-  simp only [ho, hs, hl, ha, gAggFn]
-  rw [simpleAgg_single, count_star_coded]
-  simp [hlen]
-
-theorem dedupByLast_ids (bs : List Binding) : (dedupByLast bs).map lastId = dedupVals (bs.map lastId) := by
-  induction bs with
-  | nil => rfl
-  | cons b rest ih =>
-    simp only [dedupByLast, List.map_cons, dedupVals, dedupFirst]
-    congr 1
-    rw [show dedupFirst (List.map lastId rest) = List.map lastId (dedupByLast rest) from ih.symm, List.filter_map]
-    rfl
-
-/-- F: `g.V()…out()….dedup()` returns every vertex the pattern reaches exactly once — the distinct
-current vertices of the enumeration. -/
-theorem gremlin_dedup_perm (g : Graph) (hu : UniqueIds g) (q : GremQ)
-    (hp : q.proj = none) (hd : q.dedup = .nodes) (ho : q.order = none) (hs : q.skip = none) (hl : q.limit = none)
-    (ha : q.agg = none) :
-    ∃ r s, Pipe.execGremlin g q = .rows r ∧ Spec.evalGremlin g q = .rows s ∧ r.Perm s ∧ s.Nodup := by
-  have hperm := c08_pipeline_bindings_perm_enumeration g hu q.core
-  have hids : (((Pipe.bindings g q.core).filter (passes q.preds)).map lastId).Perm
-      (((Spec.bindings g q.core).filter (passes q.preds)).map lastId) := (hperm.filter _).map _
-  refine ⟨(dedupVals (((Pipe.bindings g q.core).filter (passes q.preds)).map lastId)).map (fun v => [ofVal v]),
-    (dedupVals (((Spec.bindings g q.core).filter (passes q.preds)).map lastId)).map (fun v => [ofVal v]), ?_, ?_, ?_, ?_⟩
-  · simp [Pipe.execGremlin, gremSteps, hp, hd, ho, hs, hl, ha, window, dedupByLast_ids]
-  · simp [Spec.evalGremlin, gremSteps, hp, hd, ho, hs, hl, ha, window, dedupByLast_ids]
-  · exact (dedupFirst_perm _ _ hids).map _
-  · have hinj : ∀ a b : Val, a ≠ b → [ofVal a] ≠ [ofVal b] := by
-      intro a b hab h
-      apply hab
-      cases a <;> cases b <;> simp_all [ofVal]
-    exact List.Pairwise.map _ hinj (nodup_dedupFirst _)
-
-/-- F: a GraphQL query without `orderBy` / `first` / `skip` returns the rows of the enumeration,
-the same number of times. -/
-theorem graphql_exec_perm_spec (g : Graph) (hu : UniqueIds g) (q : GqlQ)
-    (ho : q.order = none) (hs : q.skip = none) (hf : q.first = none) :
-    ∃ r s, Pipe.execGraphql g q = .rows r ∧ Spec.evalGraphql g q = .rows s ∧ r.Perm s := by
-  have hperm := c08_pipeline_bindings_perm_enumeration g hu q.core
-  refine ⟨((Pipe.bindings g q.core).filter (passes q.preds)).map (projA q.cols),
-    ((Spec.bindings g q.core).filter (passes q.preds)).map (projA q.cols), ?_, ?_, (hperm.filter _).map _⟩
-  · simp [Pipe.execGraphql, gqlFinish, ho, hs, hf, window]
-  · simp [Spec.evalGraphql, gqlFinish, ho, hs, hf, window]
-
-/-- F (after the repair of `orderBy`): as coded and as specified a GraphQL query is the same
-function of the bindings — `orderBy`, `skip`, `first` included; the two differ only in how the
-bindings are found. -/
-theorem graphql_exec_eq_finish (g : Graph) (q : GqlQ) (hw : q.order.isSome ∨ (q.skip = none ∧ q.first = none)) :
-    Pipe.execGraphql g q = .rows (gqlFinish q (Pipe.bindings g q.core)) ∧
-    Spec.evalGraphql g q = .rows (gqlFinish q (Spec.bindings g q.core)) := by
-  refine ⟨rfl, ?_⟩
-  unfold Spec.evalGraphql
-  rcases hw with h | ⟨h1, h2⟩
-  · cases ho : q.order with
-    | none => simp [ho] at h
-    | some x => simp
-  · simp [h1, h2]
-
-/-- N: `{ l0(orderBy: {k9: DESC}) { k9 } }` over two `L0` vertices returns them in descending
-order on both sides (the old plan failed). -/
-theorem graphql_orderby_nonvacuous :
-    let g : Graph := ⟨[⟨0, [0], [(9, .int 0)]⟩, ⟨1, [0], [(9, .int 10)]⟩], []⟩
-    let q : GqlQ := { label := 0, hops := [], preds := [], cols := [(0, 9)], order := some (9, false), skip := none, first := none }
-    Pipe.execGraphql g q = .rows [[.int 10], [.int 0]] ∧ Spec.evalGraphql g q = .rows [[.int 10], [.int 0]] := by
-  refine ⟨by decide, by decide⟩
-
-theorem expandStep_perm_extend (g : Graph) (hu : UniqueIds g) (h : Hop) (a : Node) :
-    (Pipe.expandStep g h [a]).Perm (Spec.extend g [h] [a]) := by
-  have h1 := pipe_perm_spec_rows g hu [h] [[a]] [[a]] (List.Perm.refl _)
-  have h2 := flatMap_extend_eq_specRows g [h] [[a]]
-  rw [← h2] at h1
-  simpa using h1
-
-/-- F: two sibling selections `{ l { k9 t1 { k9 } t2 { k9 } } }` return, for every root vertex,
-every pair of a `t1`-neighbour and a `t2`-neighbour, the same number of times as the enumeration. -/
-theorem graphql_siblings_perm (g : Graph) (hu : UniqueIds g) (label t1 t2 : Nat) :
-    ∃ r s, Pipe.execStar g label t1 t2 = .rows r ∧ Spec.evalStar g label t1 t2 = .rows s ∧ r.Perm s := by
-  refine ⟨_, _, rfl, rfl, ?_⟩
-  apply flatMap_perm_pointwise
-  intro a _
-  have p1 := expandStep_perm_extend g hu ⟨some t1, .out, ⟨none⟩⟩ a
-  have p2 := expandStep_perm_extend g hu ⟨some t2, .out, ⟨none⟩⟩ a
-  refine (flatMap_perm_pointwise _ _ _ (fun ab _ => p2.map _)).trans ?_
-  exact List.Perm.flatMap_right _ p1
-
-theorem graphql_siblings_nonvacuous :
-    let ns : List Node := [⟨0, [0], [(9, .int 0)]⟩, ⟨1, [0], [(9, .int 10)]⟩, ⟨2, [0], [(9, .int 20)]⟩]
-    Pipe.execStar ⟨ns, [⟨0, 0, 1, 0⟩, ⟨1, 1, 2, 1⟩]⟩ 0 0 1 = .rows [] ∧
-    Spec.evalStar ⟨ns, [⟨0, 0, 1, 0⟩, ⟨1, 1, 2, 1⟩]⟩ 0 0 1 = .rows [] ∧
-    Pipe.execStar ⟨ns, [⟨0, 0, 1, 0⟩, ⟨1, 0, 2, 1⟩]⟩ 0 0 1 = .rows [[.int 0, .int 10, .int 20]] ∧
-    Spec.evalStar ⟨ns, [⟨0, 0, 1, 0⟩, ⟨1, 0, 2, 1⟩]⟩ 0 0 1 = .rows [[.int 0, .int 10, .int 20]] := by
-  refine ⟨by decide, by decide, by decide, by decide⟩
-
-theorem gremlin_dedup_nonvacuous :
-    let g : Graph := ⟨[⟨0, [], []⟩, ⟨1, [], []⟩], [⟨0, 0, 1, 0⟩, ⟨1, 0, 1, 0⟩]⟩
-    let q : GremQ := { start := ⟨none⟩, hops := [⟨none, .out, ⟨none⟩⟩], preds := [], order := none, skip := none,
-                       limit := none, proj := none, dedup := .nodes, agg := none }
-    Pipe.execGremlin g q = .rows [[.int 1]] ∧ Spec.evalGremlin g q = .rows [[.int 1]] := by
-  refine ⟨by decide, by decide⟩
-
-/-- N: `g.V().values('k0').count()` over one vertex with and one without `k0` is 1 on both sides. -/
-theorem gremlin_values_nonvacuous :
-    let g : Graph := ⟨[⟨0, [], [(0, .int 1)]⟩, ⟨1, [], []⟩], []⟩
-    let q : GremQ := { start := ⟨none⟩, hops := [], preds := [], order := none, skip := none,
-                       limit := none, proj := some 0, dedup := .none, agg := some .count }
-    Pipe.execGremlin g q = .rows [[.int 1]] ∧ Spec.evalGremlin g q = .rows [[.int 1]] := by
-  refine ⟨by decide, by decide⟩
-
-/-- W: the operator lays the row out keys first whatever RETURN says (open); `count(*)` counts rows. -/
-theorem layout_witness :
-    let g : Graph := ⟨[⟨0, [], [(0, .int 1), (1, .int 7)]⟩, ⟨1, [], [(1, .int 7)]⟩], []⟩
-    let q : AggQ := { start := ⟨none⟩, hops := [], preds := [], items := [.agg .count false (.prop 0 0), .key 0 1],
-                      orderBy := [], skip := none, limit := none }
-    let q2 : AggQ := { q with items := [.agg .countStar false (.node 0)] }
-    Pipe.execAgg g q = .rows [[.int 7, .int 1]] ∧ Spec.evalAgg g q = .rows [[.int 1, .int 7]] ∧
-    Pipe.execAgg g q2 = .rows [[.int 2]] ∧ Spec.evalAgg g q2 = .rows [[.int 2]] := by
-  refine ⟨by decide, by decide, by decide, by decide⟩
-
-/-- W: `min` over text that reads as a number and a number: "10" is compared with 9 numerically;
-in the specification's value order every number comes before every string. -/
-theorem min_numeric_text_query_witness :
-    let g : Graph := ⟨[⟨0, [], [(0, .str "10")]⟩, ⟨1, [], [(0, .int 11)]⟩], []⟩
-    let q : AggQ := { start := ⟨none⟩, hops := [], preds := [], items := [.agg .min false (.prop 0 0)],
-                      orderBy := [], skip := none, limit := none }
-    Pipe.execAgg g q = .rows [[.str "10"]] ∧ Spec.evalAgg g q = .rows [[.int 11]] := by
-  refine ⟨by decide +kernel, by decide⟩
-
-/-! ## 6. regression: the defects repaired in the code, on the old definitions
-
-The functions below are what the model contained before the repairs; the theorems record how each
-differed from what the model does now. First round: `ValueVector::set_null` validity mask,
-Int64-typed SUM / MIN / MAX columns, Cypher `count(x)` as COUNT(*), DISTINCT on the factorized
-aggregate, sibling hops as a chain, whole-row `dedup()`. Second round: `count(*)` rejected by the
-parsers, SUM switching to a float at an intermediate overflow and AVG adding in floats, MIN / MAX
-depending on the input order, Gremlin `values()` keeping nulls, GraphQL `orderBy` failing. -/
-
-namespace Old
-
-/-- typed vectors recorded only their first null -/
-def loseNullsCol (dflt : AVal) : Bool → List AVal → List AVal
-  | _, [] => []
-  | seen, v :: vs =>
-    if v == .null then (if seen then dflt else .null) :: loseNullsCol dflt true vs
-    else v :: loseNullsCol dflt seen vs
-
-theorem loseNullsCol_witness :
-    loseNullsCol (.int 0) false [.null, .int 3, .null, .null] = [.null, .int 3, .int 0, .int 0] := by decide
-
-/-- SUM / MIN / MAX results were pushed into an Int64 vector -/
-def coerceInt64 (v : AVal) : AVal :=
-  match v with
-  | .int _ => v
-  | .null => v
-  | _ => .int 0
-
-theorem coerceInt64_witness :
-    coerceInt64 (colAgg .min false [.str "b", .str "a"]) = .int 0 ∧ colAgg .min false [.str "b", .str "a"] = .str "a" := by
-  refine ⟨by decide, by decide⟩
-
-/-- Cypher's `count(x)` reached the operator as COUNT(*) -/
-theorem cypher_count_witness :
-    colAgg .count false [.int 1, .null] = .int 2 ∧ colAgg .countNonNull false [.int 1, .null] = .int 1 := by
-  refine ⟨by decide, by decide⟩
-
-/-- sibling hops were executed as the chain a -t1-> b -t2-> c -/
-def execStarChain (g : Graph) (label t1 t2 : Nat) : Res :=
-  let q : Q := { start := ⟨some label⟩, hops := [⟨some t1, .out, ⟨none⟩⟩, ⟨some t2, .out, ⟨none⟩⟩], preds := [],
-                 ret := .props [(0, 9), (1, 9), (2, 9)], distinct := false, orderBy := [], skip := none, limit := none }
-  .rows ((Pipe.bindings g q).map (projA [(0, 9), (1, 9), (2, 9)]))
-
-theorem execStarChain_witness :
-    let ns : List Node := [⟨0, [0], [(9, .int 0)]⟩, ⟨1, [0], [(9, .int 10)]⟩, ⟨2, [0], [(9, .int 20)]⟩]
-    execStarChain ⟨ns, [⟨0, 0, 1, 0⟩, ⟨1, 1, 2, 1⟩]⟩ 0 0 1 = .rows [[.int 0, .int 10, .int 20]] ∧
-    Pipe.execStar ⟨ns, [⟨0, 0, 1, 0⟩, ⟨1, 1, 2, 1⟩]⟩ 0 0 1 = .rows [] := by
-  refine ⟨by decide, by decide⟩
-
-/-- SUM switched to the float accumulator at the first intermediate sum outside `i64` -/
-def sumSwitch (s : Int) : List Int → AVal
-  | [] => .int s
-  | i :: rest => if inI64 (s + i) then sumSwitch (s + i) rest else .float (rest.foldl (fun f j => fadd f (ofInt j)) (fadd (ofInt s) (ofInt i)))
-
-theorem sumSwitch_witness :
-    sumSwitch 0 [2 ^ 63 - 1, 1, -5] = .float 0x43e0000000000000 ∧
-    colAgg .sum false [.int (2 ^ 63 - 1), .int 1, .int (-5)] = .int (2 ^ 63 - 5) := by
-  refine ⟨by decide +kernel, by decide⟩
-
-/-- AVG added every value to a running float -/
-def avgRunning (l : List Int) : Nat := fdiv (l.foldl (fun f j => fadd f (ofInt j)) 0) (ofInt l.length)
-
-theorem avgRunning_witness :
-    avgRunning [2 ^ 53, 1, 1] = 4838367199671702869 ∧
-    colAgg .avg false [.int (2 ^ 53), .int 1, .int 1] = .float 4838367199671702871 := by
-  refine ⟨by decide +kernel, by decide +kernel⟩
-
-/-- `compare_values` left a number and non-numeric text incomparable: the first value won -/
-def cmpAggOld (a b : Val) : Option Ordering :=
-  match a, b with
-  | .int x, .int y => some (compare x y)
-  | .str x, .str y =>
-    (match parseF64 x.toList, parseF64 y.toList with
-     | some fx, some fy => F64.partialCmp fx fy
-     | _, _ => some (compare x y))
-  | .str s, .int i => (parseF64 s.toList).bind (fun fs => F64.partialCmp fs (ofInt i))
-  | .int i, .str s => (parseF64 s.toList).bind (fun fs => F64.partialCmp (ofInt i) fs)
-  | _, _ => none
-
-theorem cmpAggOld_witness :
-    cmpAggOld (.int 1) (.str "a") = none ∧ cmpAggOld (.str "a") (.int 1) = none ∧
-    cmpAgg (.int 1) (.str "a") = some .lt ∧ cmpAgg (.str "a") (.int 1) = some .gt := by
-  refine ⟨by decide, by decide, by decide, by decide⟩
-
-/-- Gremlin `values(k)` kept a null for a vertex without `k` -/
-theorem values_kept_nulls_witness :
-    let vals : List Val := [.int 1, .null]
-    colAgg .count false vals = .int 2 ∧ colAgg .count false (nonNull vals) = .int 1 := by
-  refine ⟨by decide, by decide⟩
-
-end Old
 
 end Grafeo.QueryAgg
